@@ -153,8 +153,12 @@ class Ops(ExecBase):
         if isinstance(c, bool):
             self.goto(st, f, ins['s'][0 if c else 1], False)
         else:
+            k = st.known.get(c.get_id())
+            if k is not None:
+                self.goto(st, f, ins['s'][0 if k[1] else 1], False)
+                return 'ctl'
             i = self.choose(st, [c, z3.Not(c)])
-            self.stats['forks'] += 0
+            st.pending_known.append((c.get_id(), c, i == 0))
             self.goto(st, f, ins['s'][i], True)
         return 'ctl'
 
